@@ -94,7 +94,7 @@ class RefProgram:
         the constructor refuses such a machine (InvalidDefinition) before anything runs."""
         def provided(name):
             m = self.prog["cbs"].get("machine." + name)
-            if m is not None and m.get("style") in ("callable", "decorator", "devent"):
+            if m is not None and m.get("style") in ("callable", "decorator", "devent", "closure"):
                 return True
             for role in roles:
                 meta = self.prog["cbs"].get(f"{role}.{name}")
